@@ -3,7 +3,7 @@ import json, os
 from gen import common
 from gen.common import hexs
 
-LEAN_MODULE = ["XcmModel.Props.C19", "XcmModel.Props.Funcs"]
+LEAN_MODULE = ["XcmModel.Props.C19", "XcmModel.Props.Funcs", "XcmModel.Props.AttrTree"]
 THEOREMS = [
     "XcmModel.C19.abs_add", "XcmModel.C19.abs_del", "XcmModel.C19.inv_add", "XcmModel.C19.inv_del",
     "XcmModel.C19.getTyped_spec", "XcmModel.C19.exists_spec", "XcmModel.C19.size_spec",
@@ -14,6 +14,7 @@ THEOREMS = [
     "XcmModel.C19.C19_path_no_longer", "XcmModel.C19.C19_path_rejects_long",
     "XcmModel.C19.C19_path_comp_bound", "XcmModel.C19.C19_path_parse_wf",
     "XcmModel.FuncsTie.is_special_tie", "XcmModel.FuncsTie.is_key_char_tie",
+    "XcmModel.AttrTreeProps.listed_is_found", "XcmModel.AttrTreeProps.found_is_listed", "XcmModel.AttrTreeProps.allValues_add_readable",
 ]
 
 
@@ -271,6 +272,10 @@ def run(ctx):
     ctx.assumptions += ["attribute names and path strings are C strings (no interior NUL)",
                         "heap exhaustion (ut_malloc -> abort) is outside the model"]
 
+    # the attribute tree itself (attr_tree.c / attr_node.c)
+    from gen import attrtree as _attrtree
+    _attrtree.run_part(ctx, 40 if ctx.tier == "quick" else 1500, label="c19attrtree")
+    ctx.rule += " unit_attrtree: the real nested attribute tree (attr_tree.c + attr_node.c + attr_path.c, built with the library\'s own add functions) vs the flat Lean AttrTree model: lookups of existing names, prefixes, kind-confused, out-of-range and malformed names, list lengths and the get-all listing on generated trees."
 
 def replay(path):
     r = json.load(open(path))
